@@ -15,7 +15,7 @@ Hypotheses that are genuine restrictions of the input (each probed on the real c
   on the bounds that occur (C13) — otherwise two bounds would be reported under one `le`.
 -/
 import PromVerif.Lemmas.MultiprocessCollect
-import PromVerif.Lemmas.MultiprocessKeys
+import PromVerif.Lemmas.MultiprocessOutput
 import PromVerif.Lemmas.MultiprocessSums
 
 namespace PromVerif.Props.C08
@@ -35,50 +35,31 @@ variable {V B : Type}
     (`pid_label_collides`); what is missing is exactly that case, excluded by `WFInput.no_pid_label`).
      For every listing of well-formed files, `merge` succeeds; it reports exactly the families
     that have a contribution, each once (`families`, `Nodup`); each family carries the help text and type of its
-    contributions; its samples are the conversion of a dict `ss` whose keys are pairwise different (no series
-    duplicated) and whose value at EVERY key `k` is the spec's `value` — in particular a key is present iff the spec
+    contributions; its OUTPUT samples have pairwise different (name, label set) (no series duplicated —
+    the final `dict(labels)` conversion is the identity here, `Lemmas/MultiprocessOutput.convert_id`) and are exactly the
+    entries of a dict `ss` whose value at EVERY key `k` is the spec's `value` — in particular a key is present iff the spec
     gives it a value (no series dropped, none invented). -/
 theorem accumulate_eq_spec_partial (vo : VOps V) (bo : BOps B) [DecidableEq B] (fs : List (SFile V)) (h : WFInput bo fs)
     (hk : ∀ mn, typOf fs mn = histogramType → (AL.keys (bucketSeries vo bo mn (contribs fs mn))).Nodup) :
     ∃ out, merge vo bo (fs.map toFile) = .ok out ∧
       out.map (·.name) = families fs ∧ (families fs).Nodup ∧
       ∀ om ∈ out, om.doc = helpOf fs om.name ∧ om.typ = typOf fs om.name ∧
-        ∃ ss, om.samples = convert ss ∧ (AL.keys ss).Nodup ∧ ∀ k, AL.get? ss k = value vo bo fs om.name k := by
-  unfold merge
-  rw [readMetrics_ok fs h.files]
-  simp only [bind, Except.bind]
-  have hkeys := read_keys (allContribs fs)
-  have hnd : (AL.keys ((allContribs fs).foldl readStep [])).Nodup := by rw [hkeys]; exact nodup_distinct _
-  obtain ⟨ys, h1, h2, h3⟩ := mapM_spec (fun (nm : Str × Metric V) => accumulateMetric vo bo nm.2)
-    (fun nm om => om.name = nm.1 ∧ om.doc = helpOf fs nm.1 ∧ om.typ = typOf fs nm.1 ∧
-      ∃ ss, om.samples = convert ss ∧ (AL.keys ss).Nodup ∧ ∀ k, AL.get? ss k = value vo bo fs nm.1 k)
-    (·.name) (·.1) ((allContribs fs).foldl readStep [])
-    (by
-      intro nm hnm
-      have hget := AL.get?_of_mem _ hnd nm.1 nm.2 hnm
-      rw [read_get?] at hget
-      cases hcs : (allContribs fs).filter (fun c => c.key.metric = nm.1) with
-      | nil => rw [hcs] at hget; cases hget
-      | cons c cs =>
-        have hc : contribs fs nm.1 = c :: cs := hcs
-        have htyp : typOf fs nm.1 = c.typ := by simp [typOf, hc]
-        obtain ⟨m, ss, e1, e2, e3, e4, e5, e6, e7⟩ := family_eq_spec vo bo fs h nm.1 c cs hc
-          (fun hh => hk nm.1 (htyp.trans hh))
-        rw [hcs, e1] at hget
-        have hm : nm.2 = m := (Option.some.inj hget).symm
-        refine ⟨⟨m.name, m.doc, m.typ, convert ss⟩, ?_, ⟨e2, e3, e4, ss, rfl, e6, e7⟩, e2⟩
-        unfold accumulateMetric
-        rw [hm, e5]
-        rfl)
-  refine ⟨ys, h1, ?_, nodup_distinct _, ?_⟩
-  · rw [h2]
-    have : ((allContribs fs).foldl readStep []).map (·.1) = AL.keys ((allContribs fs).foldl readStep []) := rfl
-    rw [this, hkeys]
-    rfl
-  · intro om hom
-    obtain ⟨nm, _, q1, q2, q3, q4⟩ := h3 om hom
-    rw [q1]
-    exact ⟨q2, q3, q4⟩
+        (om.samples.map (fun s => (s.name, s.labels))).Nodup ∧
+        ∃ ss, om.samples = ss.map (fun kv => (⟨kv.1.1, kv.1.2, kv.2⟩ : OutSample V)) ∧ (AL.keys ss).Nodup ∧
+          ∀ k, AL.get? ss k = value vo bo fs om.name k := by
+  obtain ⟨out, h1, h2, h3, h4⟩ := accumulate_eq_dict vo bo fs h hk
+  refine ⟨out, h1, h2, h3, ?_⟩
+  intro om hom
+  obtain ⟨q1, q2, ss, e1, e2, e3⟩ := h4 om hom
+  have hlab : ∀ kv ∈ ss, (kv.1.2.map (·.1)).Nodup := by
+    intro kv hkv
+    have hg := AL.get?_of_mem ss e2 kv.1 kv.2 hkv
+    rw [e3] at hg
+    exact value_key_labels_nodup vo bo fs h om.name kv.1 kv.2 hg
+  have hconv := convert_id ss hlab
+  refine ⟨q1, q2, ?_, ss, e1.trans hconv, e2, e3⟩
+  rw [e1, hconv, List.map_map]
+  exact e2
 
 /-! ### histograms: merged per bound, then cumulative; `_count` is the `+Inf` bucket -/
 
@@ -173,11 +154,30 @@ theorem gauge_value_declarative (vo : VOps V) (hirr : ∀ a, vo.lt a a = false)
 
 /-! ### no series dropped, none invented; labels come from the contributions -/
 
-/-- **help_labels_bounds_preserved** (with `accumulate_eq_spec_partial`, which gives help text and type): a series has a value
+/-- **help_type_preserved.**  The type `merge` reports for a family (`accumulate_eq_spec_partial`: `typOf`) is the type of
+    EVERY contribution to it, and the help text it reports (`helpOf`, the first contribution's) is the help text of every
+    contribution as soon as the contributions agree on it (one definition of the metric in all processes; when they
+    disagree the library reports the first one listed — the property does not say which). -/
+theorem help_type_preserved (bo : BOps B) (fs : List (SFile V)) (hwf : WFInput bo fs) (mn : Str) (c : Contrib V)
+    (hc : c ∈ contribs fs mn) :
+    typOf fs mn = c.typ ∧ ((∀ c' ∈ contribs fs mn, c'.key.help = c.key.help) → helpOf fs mn = c.key.help) := by
+  unfold typOf helpOf
+  cases hcs : contribs fs mn with
+  | nil => rw [hcs] at hc; cases hc
+  | cons c0 r =>
+    have h0 : c0 ∈ contribs fs mn := hcs ▸ List.mem_cons_self
+    have m0 := mem_contribs h0
+    have m1 := mem_contribs hc
+    simp only [List.head?_cons, Option.map_some, Option.getD_some]
+    refine ⟨(hwf.one_type c0 m0.1 c m1.1 (m0.2.trans m1.2.symm)).symm, ?_⟩
+    intro hall
+    exact hall c0 (hcs ▸ h0)
+
+/-- **labels_preserved** (label sets; help text and type: `help_type_preserved`; bucket bounds: `bucket_bounds_preserved`): a series has a value
     exactly when some contribution belongs to it, and its name and label set are that contribution's — for sums
     `(name, labels)`, for `all`/`liveall` gauges `labels + {pid}`, for `min`/`max`/`sum` gauges `(name, labels)`; a
     mostrecent series exists only if some contribution to it has a positive set-time. -/
-theorem help_labels_bounds_preserved (vo : VOps V) (cs : List (Contrib V)) (k : SKey) :
+theorem labels_preserved (vo : VOps V) (cs : List (Contrib V)) (k : SKey) :
     ((sumValue vo cs k).isSome = true ↔ ∃ c ∈ cs, plainKey c = k) ∧
     ((gaugeValue vo .gaugeMin cs k).isSome = true ↔ ∃ c ∈ cs, plainKey c = k) ∧
     ((gaugeValue vo .gaugeMax cs k).isSome = true ↔ ∃ c ∈ cs, plainKey c = k) ∧
@@ -425,8 +425,9 @@ open PromVerif.Model.Values in
     So counters, summaries and histogram cells sum, over all identities dead or alive, everything ever incremented
     (`worker_sums_partial` below makes the sum explicit); `all` gauges show each identity's own last value; min/max/sum/
     mostrecent range over the identities' own values; live modes only over identities not marked dead since they wrote.
-    Remaining hypotheses (`_partial`): `hu` — one live value object per (prefix, key) in the acting worker at every point
-    (the real code loses updates otherwise: `C09.two_objects_lose_updates`); `GoodPS.no_pid_label` (known finding F24);
+    Remaining hypotheses (`_partial`): `hu` — at every point the acting worker UPDATES only through the youngest value object on a
+    (prefix, key) (stale objects left by `remove()`/`clear()` are fine; the real code loses updates when an older object
+    is updated too: `C09.two_objects_lose_updates`); `GoodPS.no_pid_label` (known finding F24);
     `GoodPS.consistent` — one type and gauge mode per metric name; identities free of `_`; `hfmt` — the bound formatter is
     injective on parsed bounds (C13, `fmt_injective_of_repr`).  Simultaneously running workers are represented by
     listing each worker's calls contiguously: they have distinct identities, hence touch disjoint files
@@ -439,7 +440,8 @@ theorem collect_workers_partial (vo : VOps V) (bo : BOps B) [DecidableEq B] (PS 
     ∃ out, merge vo bo (listing D) = .ok out ∧
       out.map (·.name) = families (sfiles D) ∧ (families (sfiles D)).Nodup ∧
       (∀ om ∈ out, om.doc = helpOf (sfiles D) om.name ∧ om.typ = typOf (sfiles D) om.name ∧
-        ∃ ss, om.samples = convert ss ∧ (AL.keys ss).Nodup ∧
+        (om.samples.map (fun s => (s.name, s.labels))).Nodup ∧
+        ∃ ss, om.samples = ss.map (fun kv => (⟨kv.1.1, kv.1.2, kv.2⟩ : OutSample V)) ∧ (AL.keys ss).Nodup ∧
           ∀ k, AL.get? ss k = value vo bo (sfiles D) om.name k) ∧
       (∀ c ∈ allContribs (sfiles D), ∃ q ∈ PS, c.typ = q.typ ∧ (c.typ = gaugeType → c.mode = q.mode) ∧
         c.key = mmapKey q ∧ '_' ∉ c.pid ∧
@@ -581,6 +583,43 @@ theorem collected_sum_is_all_increments_partial (vo : VOps V) (bo : BOps B)
   | nil => rw [hv] at hr; cases hr
   | cons v vs => rw [hv] at hr; exact (Option.some.inj hr).symm
 
+open PromVerif.Model.Values in
+/-- **series_present_iff** (which series exist; no uniqueness assumption).  After any world history, the collector reads a
+    contribution of identity `p` to the series of value object `q` — for an `all`/`liveall` gauge: exposes the series
+    `q.name{…, pid="p"}` (`labels_preserved`, `gaugeAll`); for min/max/sum: counts `p`'s value in — EXACTLY when
+    `wPresent`: while `p` was the acting identity some call constructed a value object on `q`'s (prefix, key) or re-bound
+    one (the first call after an identity change re-binds every value object of the worker, creating its entry at zero),
+    and, for a live mode, `p` was not marked dead afterwards.  So there is one `pid=` series per identity that HELD the
+    child, including zero-valued entries created by re-binding; none is dropped and none appears otherwise. -/
+theorem series_present_iff (vo : VOps V) (bo : BOps B) (PS : List Params) (hPS : GoodPS bo PS)
+    (p0 : Str) (hp0 : '_' ∉ p0) (evs : List (Ev V)) (hev : evsIdOK evs) (hkn : ∀ e ∈ evs, evKnown PS e)
+    (q : Params) (hq : q ∈ PS) (p : Str) (hp : '_' ∉ p) :
+    (∃ c ∈ allContribs (sfiles (wrun vo (St.init p0) evs).disk),
+        c.key = mmapKey q ∧ c.pid = p ∧ c.typ = q.typ ∧ (q.typ = gaugeType → c.mode = q.mode))
+    ↔ wPresent (filePrefix q) (mmapKey q) p (isLiveFileOf p (fileName (filePrefix q) p)) p0 p0 [] evs false = true := by
+  have hw := wrun_diskOK vo PS evs (St.init p0) (bound_init p0) ⟨hp0, hp0⟩
+    ⟨diskOK_nil PS, fun v hv => by cases hv⟩ hev hkn
+  have hdisk := hw.1.disk
+  have hpres : has (wrun vo (St.init p0) evs).disk (fileName (filePrefix q) p) (mmapKey q)
+      = wPresent (filePrefix q) (mmapKey q) p (isLiveFileOf p (fileName (filePrefix q) p)) p0 p0 [] evs false :=
+    wrun_has vo (filePrefix q) (mmapKey q) p hp evs (St.init p0) (bound_init p0) ⟨hp0, hp0⟩ hev
+  rw [← hpres]
+  constructor
+  · rintro ⟨c, hc, e1, e2, e3, e4⟩
+    obtain ⟨q', hq', t1, t2, k1, _, hcell⟩ := contrib_char PS hPS.good _ hdisk c hc
+    have hpre : filePrefix q' = filePrefix q := by
+      unfold filePrefix
+      have ht : q'.typ = q.typ := by rw [← t1, e3]
+      by_cases hg : q.typ = gaugeType
+      · have hm : q'.mode = q.mode := by rw [← t2 (e3.trans hg), e4 hg]
+        rw [ht, hm]
+      · rw [ht, if_neg hg, if_neg hg]
+    rw [hpre, e2, e1] at hcell
+    unfold has
+    rw [hcell]; rfl
+  · intro h
+    exact contrib_of_cell PS hPS.good _ hdisk q hq p hp h
+
 /-! ### non-vacuity, and the counter-example behind `no_pid_label` -/
 
 /-- `Int` values (a commutative monoid with a strict order), natural-number bounds read from decimal digits and rendered in unary (injective, structurally recursive) -/
@@ -607,7 +646,7 @@ def demoFiles : List (SFile Int) :=
    ⟨"histogram".toList, [], "2".toList, [(kHb "100", 4, 0), (kHs, 1, 0), (kHb "5", 1, 0), (kHb "1", 0, 0)]⟩]
 
 theorem demo_wf : WFInput natB demoFiles := by
-  refine ⟨?_, by decide, by decide, by decide, by decide, fun _ _ _ _ _ => rfl⟩
+  refine ⟨?_, by decide, by decide, by decide, by decide, fun _ _ _ _ _ => rfl, by decide⟩
   intro f hf
   simp only [demoFiles, List.mem_cons, List.not_mem_nil, or_false] at hf
   rcases hf with h | h | h | h | h | h <;> subst h <;> exact ⟨by decide, by decide, by decide, by decide⟩
@@ -626,7 +665,9 @@ theorem demo_keys : ∀ mn, typOf demoFiles mn = histogramType →
 example : ∃ out, merge intV natB (demoFiles.map toFile) = .ok out ∧
     out.map (·.name) = families demoFiles ∧ (families demoFiles).Nodup ∧
     ∀ om ∈ out, om.doc = helpOf demoFiles om.name ∧ om.typ = typOf demoFiles om.name ∧
-      ∃ ss, om.samples = convert ss ∧ (AL.keys ss).Nodup ∧ ∀ k, AL.get? ss k = value intV natB demoFiles om.name k :=
+      (om.samples.map (fun s => (s.name, s.labels))).Nodup ∧
+      ∃ ss, om.samples = ss.map (fun kv => (⟨kv.1.1, kv.1.2, kv.2⟩ : OutSample Int)) ∧ (AL.keys ss).Nodup ∧
+        ∀ k, AL.get? ss k = value intV natB demoFiles om.name k :=
   accumulate_eq_spec_partial intV natB demoFiles demo_wf demo_keys
 
 /-- … and what it computes there: counter 2+3, livemin min(5,-1), buckets 1|5|100 merged to 1|3|4 then cumulated to
@@ -697,17 +738,6 @@ theorem demoWorld_known : ∀ e ∈ demoWorld, evKnown [wC, wL, wS] e := by
   rcases he with h | h | h | h | h | h | h | h | h | h | h | h | h | h | h | h | h <;> subst h <;>
     first | trivial | (show _ ∈ [wC, wL, wS]; decide)
 
-def wUniqB : St Int → List (Ev Int) → Bool
-  | _, [] => true
-  | st, e :: r => decide (((wstep intV st e).1.values.map (fun v => idOf v.params)).Nodup) && wUniqB (wstep intV st e).1 r
-
-theorem wUniqB_sound (evs : List (Ev Int)) (st : St Int) (h : wUniqB st evs = true) : WUniq intV st evs := by
-  induction evs generalizing st with
-  | nil => trivial
-  | cons e r ih =>
-    simp only [wUniqB, Bool.and_eq_true, decide_eq_true_eq] at h
-    exact ⟨h.1, ih _ h.2⟩
-
 theorem natB_fmt_inj : ∀ t t' b b', natB.parse t = some b → natB.parse t' = some b' → natB.fmt b = natB.fmt b' → b = b' := by
   intro _ _ b b' _ _ h
   have := congrArg List.length h
@@ -715,7 +745,7 @@ theorem natB_fmt_inj : ∀ t t' b b', natB.parse t = some b → natB.parse t' = 
 
 /-- `collect_workers_partial` applies -/
 example := collect_workers_partial intV natB [wC, wL, wS] demoPS_good "5".toList (by decide) demoWorld demoWorld_ids
-  demoWorld_known (wUniqB_sound _ _ (by decide)) natB_fmt_inj
+  demoWorld_known (wUniqB_sound intV _ _ (by decide)) natB_fmt_inj
 
 /-- … and on this history the collector's counter series is 2 + 4 + 3 = 9 over the files `counter_5.db` (5) and
     `counter_6.db` (4); the live gauge of the dead-and-reused pid restarted (1), the non-live one continued (21) -/
